@@ -396,11 +396,69 @@ func runCase(c ccase, rep *batch.Report) batch.CaseResult {
 	return res
 }
 
+// directed hook-ordered schedules (ringlab/directed.go)
+type directedCase struct {
+	Name    string `json:"name"`
+	Seed    int64  `json:"seed"`
+	NetV    bool   `json:"netv"`
+	Backend int    `json:"backend"`
+}
+
+func runDirected(raw json.RawMessage) (any, error) {
+	var cases []directedCase
+	if err := json.Unmarshal(raw, &cases); err != nil {
+		return nil, err
+	}
+	rep := &batch.Report{}
+	prog := batch.OpenProgress()
+	for _, c := range cases {
+		prog.Begin(c.Name, c)
+		out := batch.CaseResult{Name: c.Name}
+		d := ringlab.RunRefusedLeaveDuringJoin(c.Seed, c.NetV)
+		if d.Setup != "" {
+			rep.Count("directed_schedules_not_constructed", 1)
+		} else {
+			nw := 0
+			for range d.Windows {
+				nw++
+			}
+			out.Sig = fmt.Sprintf("directed/%s/netv=%v/backend=%d/windows=%d", d.Name, c.NetV, c.Backend, nw)
+			rep.Count("directed_schedules_constructed(leave refused while a join holds the successor)", 1)
+			out.Sample = map[string]any{"schedule": d.Name, "windows_reached": d.Windows, "trace": d.Trace}
+		}
+		for _, f := range d.Findings {
+			out.Violations = append(out.Violations, batch.Viol{Key: f.Key, What: f.What, Witness: f.Witness})
+		}
+		prog.Done(out)
+		rep.Add(out)
+	}
+	return rep, nil
+}
+
+func directedBatches(r *ev.Run, par, nd int) []any {
+	drng := r.Rand("directed")
+	db := make([][]directedCase, min(par, nd))
+	for i := 0; i < nd; i++ {
+		c := directedCase{Name: fmt.Sprintf("directed-%d", i), Seed: drng.Int63(), NetV: i%2 == 1, Backend: []int{int(ringlab.Memory), int(ringlab.Memory), int(ringlab.AOF), int(ringlab.SQLite)}[i%4]}
+		if r.WantCase(c.Name) {
+			db[i%len(db)] = append(db[i%len(db)], c)
+		}
+	}
+	var out []any
+	for _, b := range db {
+		if len(b) > 0 {
+			out = append(out, b)
+		}
+	}
+	return out
+}
+
 func main() {
 	child.Register("cases", runCases)
+	child.Register("directed", runDirected)
 	child.Main()
 	r := ev.Start("C06", "exploration")
-	r.SetRule("aimed contention on rings of 2..8 real LocalNodes: 2-8 joiners with ids in one gap, a leave racing joins on the same node / on its neighbour, 2-3 adjacent leaves, double Leave, mixed; seeded delays (0-3 ms) at the 14 hook points inside the critical windows; direct and proxied wiring; distinct+non-trivial = (scenario, interleaving of membership hook events across nodes) for executions in which at least one membership lock was taken")
+	r.SetRule("aimed contention on rings of 2..8 real LocalNodes: 2-8 joiners with ids in one gap, a leave racing joins on the same node / on its neighbour, 2-3 adjacent leaves, double Leave, mixed; seeded delays (0-3 ms) at the 14 hook points inside the critical windows; direct and proxied wiring; distinct+non-trivial = (scenario, interleaving of membership hook events across nodes) for executions in which at least one membership lock was taken; plus directed hook-ordered schedules: a join is held after its successor granted it the membership lock, the successor's other neighbour then tries to leave (refused): the successor must stay locked until the join itself releases it")
 	r.Assume("a request answered with ErrNodeGone/ErrNodeNotStarted by a node that has left or not started is not a refusal by a serving node")
 	rng := r.Rand("cases")
 	n := r.Pick(48, 600)
@@ -427,6 +485,9 @@ func main() {
 		}
 	}
 	batch.Run(r, "cases", args, par, 15*time.Minute, func(inflight, head string) string { return "crash:" + head })
+	if dargs := directedBatches(r, par, r.Pick(12, 96)); len(dargs) > 0 {
+		batch.Run(r, "directed", dargs, par, 10*time.Minute, func(inflight, head string) string { return "crash:" + head })
+	}
 	batch.ReportRaces(r, "/chord.", "/kv/")
 	r.Finish()
 }
